@@ -70,6 +70,14 @@ def alias_cases():
         add("special-%s-via-symlinked-dir" % kind, base + [N, L("here", ".")], ["p", "here/p"], ["p"])
         add("special-%s-hardlink" % kind, base + [N, H("hp", "p")], ["p", "hp"], ["p"])
         add("special-%s-in-T-respelled-dir" % kind, [D("d"), F("d/f"), dict(N, p="d/p"), D("other"), F("other/keep", 99, 13)], ["-T", "d", "./d"], ["d/f", "d/p"], True)
+    # under -L a link to a special file, copied into the link's own directory: maps onto the link itself
+    for kind in ("fifo", "sock", "chr"):
+        N = {"p": "x/p", "k": kind, "mode": 0o640}
+        if kind == "chr":
+            N["rdev"] = [1, 3]
+        add("deref-link-to-%s-into-own-dir" % kind, base + [D("x"), N, L("d/lp", "../x/p")], ["-L", "d/lp", "d"], ["d/lp", "x/p"])
+        add("deref-link-to-%s-into-own-dir-respelled" % kind, base + [D("x"), N, L("d/lp", "../x/p")], ["-L", "./d/lp", "@ROOT@/d/"], ["d/lp", "x/p"])
+    add("deref-link-to-file-into-own-dir", base + [D("x"), F("x/p", 30, 71), L("d/lp", "../x/p")], ["-L", "d/lp", "d"], ["d/lp", "x/p"])
     # bystanders: what an existing destination symlink points to must survive whatever is mapped onto the link
     for kind in ("fifo", "sock", "chr", "l", "d"):
         N = {"p": "src2/p", "k": kind, "mode": 0o640}
